@@ -302,6 +302,10 @@ enum Res {
     Ok,
     Validation,
     Io,
+    /// I/O errors of the kinds a caller might be tempted to retry
+    IoInterrupted,
+    IoWouldBlock,
+    IoTimedOut,
 }
 
 #[derive(Clone)]
@@ -337,6 +341,9 @@ impl EntryIoStream for ScriptedStream {
             Res::Ok => Ok(()),
             Res::Validation => Err(IoStreamError::Validation(ValidationError::invalid("scripted"))),
             Res::Io => Err(IoStreamError::Io(io::Error::other("scripted"))),
+            Res::IoInterrupted => Err(IoStreamError::Io(io::ErrorKind::Interrupted.into())),
+            Res::IoWouldBlock => Err(IoStreamError::Io(io::ErrorKind::WouldBlock.into())),
+            Res::IoTimedOut => Err(IoStreamError::Io(io::ErrorKind::TimedOut.into())),
         }
     }
     fn flush(&mut self) -> io::Result<()> {
@@ -350,7 +357,7 @@ impl EntryIoStream for ScriptedStream {
 fn all_scripts(n: usize) -> Vec<Vec<Res>> {
     let mut out = vec![vec![]];
     for _ in 0..n {
-        out = out.into_iter().flat_map(|s| [Res::Ok, Res::Validation, Res::Io].into_iter().map(move |r| { let mut s = s.clone(); s.push(r); s })).collect();
+        out = out.into_iter().flat_map(|s| [Res::Ok, Res::Validation, Res::Io, Res::IoInterrupted, Res::IoWouldBlock, Res::IoTimedOut].into_iter().map(move |r| { let mut s = s.clone(); s.push(r); s })).collect();
     }
     out
 }
@@ -445,6 +452,7 @@ struct SharedWriter {
     calls: Arc<Mutex<usize>>,
     /// the write call (counted over the whole history) that fails hard
     fail_at: Option<usize>,
+    kind: io::ErrorKind,
 }
 impl Write for SharedWriter {
     fn write(&mut self, buf: &[u8]) -> io::Result<usize> {
@@ -452,7 +460,7 @@ impl Write for SharedWriter {
         let idx = *c;
         *c += 1;
         if Some(idx) == self.fail_at {
-            return Err(io::Error::other("scripted hard error"));
+            return Err(io::Error::new(self.kind, "scripted hard error"));
         }
         self.got.lock().unwrap().extend_from_slice(buf);
         Ok(buf.len())
@@ -506,13 +514,13 @@ fn history_part(rep: &mut Report) {
         while idx >= n.pow(len) { idx -= n.pow(len); len += 1; }
         let mut seq = Vec::new();
         for _ in 0..len { seq.push((idx % n) as usize); idx /= n; }
-        for via_sink in [false, true] {
+        for (via_sink, kind) in [(false, io::ErrorKind::Other), (true, io::ErrorKind::Other), (true, io::ErrorKind::WouldBlock), (true, io::ErrorKind::TimedOut)] {
             // first without a fault (also tells how many write calls the history makes)
             let mut fail_at: Option<usize> = None;
             let mut max_calls = 0usize;
             loop {
                 st.runs += 1;
-                let w = SharedWriter { got: Default::default(), calls: Default::default(), fail_at };
+                let w = SharedWriter { got: Default::default(), calls: Default::default(), fail_at, kind };
                 let entries: Vec<ScriptEntry<'_>> = seq.iter().map(|&k| kinds[k].1.compile()).collect();
                 let mut bounds = vec![0usize];
                 let mut calls_at = vec![0usize];
@@ -537,7 +545,7 @@ fn history_part(rep: &mut Report) {
                 }));
                 let got = w.got.lock().unwrap().clone();
                 let names: Vec<&str> = seq.iter().map(|&k| kinds[k].0).collect();
-                let replay = json!({"history": names, "through": if via_sink { "FlushImmediately over Emf::output_to" } else { "Emf::output_to stream" }, "hard_error_at_write_call": fail_at, "received": String::from_utf8_lossy(&got)});
+                let replay = json!({"history": names, "through": if via_sink { "FlushImmediately over Emf::output_to" } else { "Emf::output_to stream" }, "hard_error_at_write_call": fail_at, "error_kind": format!("{kind:?}"), "received": String::from_utf8_lossy(&got)});
                 st.classes.insert(format!("history:{}:{}", names.join(","), fail_at.is_some()));
                 if r.is_err() {
                     st.v.add("history:panicked", "appending panicked", replay);
